@@ -62,6 +62,7 @@ structure Node where
   setup : List (Nat × List String) := []    -- parents (node index, vms of the edge) in dict order
   cleanup : List (Nat × List String) := []  -- children
   objs : List String := []                  -- vms in object order
+  setless : String := ""                    -- setless_form (used for flat nodes: `self.setless_form in node.id`)
 deriving Repr
 
 structure Graph where
@@ -134,6 +135,7 @@ structure WorkerD where
   pc : Pc := .loop
   preResults : List Result := []
   preName : String := ""
+  unexplored : Bool := false   -- `len(unexplored_nodes) > 0` as computed at the start of the current iteration
 deriving Repr
 
 structure State where
@@ -143,6 +145,8 @@ structure State where
   store : List (String × List (String × String))   -- location ("shared" | worker id) ↦ states (vm, state)
   jobResults : List (String × String × String × Nat) := []   -- (name, uid, status, duration) as reported to the job
   nextTag : Nat := 1
+  hidden : List Nat := []                  -- composite nodes not parsed yet (lazy expansion); [] for pre-parsed graphs
+  incompatible : List (Nat × Nat) := []    -- (flat node, worker): composition failed (`incompatible_workers`)
 deriving Repr
 
 def State.nd (s : State) (n : Nat) : NodeD := s.nodes.getD n {}
@@ -262,6 +266,60 @@ def isSetupReady (g : Graph) (s : State) (n w : Nat) : Bool :=
 def isCleanupReady (g : Graph) (s : State) (n w : Nat) : Bool :=
   (g.node n).cleanup.all (fun (c, _) =>
     !relevant g w c || (regWorkers (s.cr (g.node n).cls).droppedCleanup (some (g.node c).cls)).contains w)
+
+/-! ## lazy expansion: the visible graph, `is_unrolled`, `should_parse`, the reveal step -/
+
+/-- the graph as parsed so far: edges from and to nodes that are not parsed yet do not exist -/
+def vis (g : Graph) (s : State) : Graph :=
+  if s.hidden.isEmpty then g else
+  { g with nodes := (g.nodes.zipIdx).map (fun (nd, i) =>
+      if s.hidden.contains i then { nd with setup := [], cleanup := [] }
+      else { nd with setup := nd.setup.filter (fun e => !s.hidden.contains e.1),
+                     cleanup := nd.cleanup.filter (fun e => !s.hidden.contains e.1) }) }
+
+def Graph.nodeId (g : Graph) (n : Nat) : String := (g.node n).pfx ++ "-" ++ (g.node n).name
+
+/-- `is_unrolled(worker)` of a flat node (`w = none`: for any worker) on the visible graph `gv` -/
+def isUnrolled (gv : Graph) (s : State) (f : Nat) (w : Option Nat) : Bool :=
+  if (gv.node f).sharedRoot then true else
+  let kids := ((gv.node f).cleanup.map (·.1)).filter (fun c => strIn (gv.node f).setless (gv.nodeId c))
+  match w with
+  | some w => s.incompatible.contains (f, w) || kids.any (fun c => strIn (gv.worker w).id (gv.nodeId c))
+  | none => s.incompatible.any (·.1 == f) || !kids.isEmpty
+
+/-- `should_parse(worker)` of a flat node -/
+def shouldParse (gv : Graph) (s : State) (f : Nat) : Bool :=
+  !(involved gv s f).any (fun v => isUnrolled gv s f (some v) && isCleanupReady gv s f v && !(gv.worker v).restricted)
+
+/-- `unexplored_nodes`: flat nodes nobody has unrolled yet -/
+def unexploredNodes (gv : Graph) (s : State) : List Nat :=
+  (List.range gv.nodes.length).filter (fun n => (gv.node n).flat && !isUnrolled gv s n none)
+
+def closeUp (g : Graph) : Nat → List Nat → List Nat
+  | 0, acc => acc
+  | fuel + 1, acc =>
+    let more := (acc.flatMap (fun n => (g.node n).setup.map (·.1))).filter (fun p => !acc.contains p)
+    if more.isEmpty then acc else closeUp g fuel (acc ++ dedupNat more)
+
+/-- `parse_paths_to_object_roots(flat, worker.net)`: the composite leaves of the flat node for this worker and all
+their ancestors become visible; no leaf for this worker = incompatible -/
+def reveal (g : Graph) (s : State) (f w : Nat) : State :=
+  let leaves := ((g.node f).cleanup.map (·.1)).filter (fun c => (g.node c).owner == some w)
+  if leaves.isEmpty then { s with incompatible := s.incompatible ++ [(f, w)] }
+  else
+    let all := closeUp g g.nodes.length leaves
+    { s with hidden := s.hidden.filter (fun h => !all.contains h) }
+
+/-- start of a loop iteration with a path longer than one: remember whether unexplored flat nodes exist and expand
+the flat node at hand when it is not unrolled for this worker -/
+def prepare (g : Graph) (s : State) (w : Nat) : State :=
+  let gv := vis g s
+  match (s.wd w).path.getLast? with
+  | none => s
+  | some next =>
+    let unexp := !(unexploredNodes gv s).isEmpty
+    let s := s.setWd w (fun d => { d with unexplored := unexp })
+    if (gv.node next).flat && !isUnrolled gv s next (some w) && (unexp || shouldParse gv s next) then reveal g s next w else s
 
 /-! ## picking and dropping -/
 
